@@ -71,6 +71,7 @@ func ge(a, b lin) cons    { return le(b, a) }                                   
 func eqc(a, b lin) []cons { return []cons{le(a, b), le(b, a)} }                 // a == b
 
 type LB struct {
+	remBusy map[ssa.Value]bool
 	fieldReps     map[string]ssa.Value
 	fieldWritten  map[string]bool
 	extra         []cons // facts valid on entry to the function (proved at every call site)
@@ -892,6 +893,20 @@ func (lb *LB) defFacts(v lvar) []cons {
 				} else {
 					out = append(out, ge(me, linConst(-(k-1))))
 				}
+			} else if !ok && lb.nonneg(x.X, 0) {
+				// x % m with a variable modulus: Go panics for m == 0, and for x >= 0, m >= 1 the result is in [0, m-1];
+				// the upper bound is only emitted when m >= 1 is established where the remainder is computed
+				out = append(out, ge(me, linConst(0)), le(me, a))
+				if lb.remBusy == nil {
+					lb.remBusy = map[ssa.Value]bool{}
+				}
+				if !lb.remBusy[x] {
+					lb.remBusy[x] = true
+					if lb.prove([]cons{ge(lb.linOf(x.Y), linConst(1))}, x.Block(), nil, map[lvar]lin{}, 0) {
+						out = append(out, le(me, lb.linOf(x.Y).addScaled(linConst(1), -1)))
+					}
+					delete(lb.remBusy, x)
+				}
 			}
 		case token.QUO:
 			if k, ok := lb.constOf(x.Y); ok && k > 0 {
@@ -1032,6 +1047,19 @@ func (lb *LB) callLenContract(c *ssa.Call) ([]cons, bool) {
 	case "bytes.Repeat":
 		if n, ok := constInt(cc.Args[1]); ok {
 			return eqc(me, lb.lenLin(cc.Args[0]).scale(n)), true
+		}
+		kl := lb.lenLin(cc.Args[0])
+		if sl, ok := cc.Args[0].(*ssa.Slice); ok && sl.Low == nil && sl.High == nil {
+			// []T{...}: the whole of a fresh array
+			if pt, ok := sl.X.Type().Underlying().(*types.Pointer); ok {
+				if at, ok := pt.Elem().Underlying().(*types.Array); ok {
+					kl = linConst(at.Len())
+				}
+			}
+		}
+		if len(kl.c) == 0 && kl.k >= 0 && kl.k < 1<<16 {
+			// a slice of constant length k repeated n times (Repeat panics for n < 0)
+			return eqc(me, lb.linOf(cc.Args[1]).scale(kl.k)), true
 		}
 	}
 	// repo function with a single return whose result length is a function of its parameters:
